@@ -81,6 +81,11 @@ def as_found_models(wd):
     r = C.model_check("Cli", cfg, os.path.join(wd, "af-cli-link"), workers=4, xmx="4g", timeout=900)
     expect("Cli.tla with format-all following symbolic links (seeded change C15-C) violates Contract",
            (not r["ok"]) and "Invariant Contract is violated" in r["out"])
+    rng = "SPECIFICATION Spec\nCONSTANTS TextLen = 3\n MaxNodes = 2\n TrimFirst = %s\nINVARIANTS InvNoPanic InvCover InvInnermost InvRefuse InvTrim\nCHECK_DEADLOCK FALSE\n"
+    r = C.model_check("RangeMC", rng % "TRUE", os.path.join(wd, "af-range"), workers=2, xmx="2g", timeout=600)
+    expect("RangeMC as found before F04 (trim before clamp) violates InvNoPanic", (not r["ok"]) and "InvNoPanic is violated" in r["out"])
+    r = C.model_check("RangeMC", rng % "FALSE", os.path.join(wd, "af-range-ok"), workers=2, xmx="2g", timeout=600)
+    expect("RangeMC as repaired satisfies the range contract", r["ok"])
     cost = ("SPECIFICATION Spec\nCONSTANTS Depth = 3\n Branch = 2\n B = 4\n AntiPattern = TRUE\nINVARIANTS BoundedVisits\nCHECK_DEADLOCK FALSE\n")
     r = C.model_check("Cost", cost, os.path.join(wd, "af-cost"), workers=2, xmx="2g", timeout=300)
     expect("Cost.tla with the try-then-fallback anti-pattern violates BoundedVisits", (not r["ok"]) and "BoundedVisits is violated" in r["out"])
